@@ -200,6 +200,16 @@ CLAIMED = {
 PENDING_REASON = "check not built yet in this round (design in DESIGN.md section 4); will be claimed when its model, theorems and correspondence exist"
 
 
+def fix_commits():
+  """Unguarded `fix:` commits in /repo on top of the pinned snapshot (hash + subject)."""
+  import subprocess
+  try:
+    out = subprocess.check_output(["git", "-C", "/repo", "log", "--reverse", "--format=%h %s", "fad4c36..HEAD"]).decode()
+    return [l for l in out.strip().split("\n") if l]
+  except Exception:
+    return []
+
+
 def main():
   props = [json.loads(l)["id"] for l in open(os.path.join(ROOT, "properties.jsonl"))]
   checks, na = [], []
@@ -226,7 +236,7 @@ def main():
           "guard": "TENSORFLOW_LATTICE_VERIF",
           "enable": "no hooks are needed: every check drives public entry points of tensorflow_lattice imported from /repo in-process (the guard name is reserved)",
           "baseline_off_cmd": "cd /repo && /venv/bin/python -m pytest -ra -q -p no:cacheprovider --timeout=900 --continue-on-collection-errors",
-          "source_commits": ["e4a7f35 fix: categorical assert_constraints fails when any ordering pair is violated by more than eps", "ef8039b fix: LinearConstraints.get_config key range_dominances (typo broke from_config)", "7cc6926 fix: PWLCalibration.get_config keeps missing_output_value", "24d5432 fix: canonicalize_trust returns tuples for list-valued trusts (unhashable list after JSON round-trip)", "6d3f016 fix: KroneckerFactoredLatticeConstraints projects onto output bounds when no dimension is monotone", "b28c800 fix: KFL verify_hyperparameters rejects zero lattice_sizes/units/num_terms (falsy zeros skipped validation)", "82ff9a3 fix: lattice regularizers accept tuple per-dimension amounts with units > 1", "4963e0a fix: lattice verify_hyperparameters raises ValueError (not TypeError) for trusts/dominances without monotonicities", "eb1526a fix: compute_keypoints uses np.quantile(method=...) (interpolation= was removed from NumPy)", "b13cb79 fix: RTL premade models route categorical features with ordering pairs to monotone lattice inputs", "6a74fac fix: pwl_calibration_fn accepts keypoint_input_parameters=None (two fixed keypoints)", "db7036b fix: PWL _squeeze_by_scaling enforces output bounds for monotone convex/concave calibrators", "f0527bf fix: Linear.assert_constraints reduces the per-unit norm check (raised ValueError for units > 1)", "4c08090 fix: lattice assert_constraints accepts tuple lattice_sizes/monotonicities with units > 1", "8d08e90 fix: PWLCalibration.assert_constraints works with impute_missing=True and no missing_input_value", "ed63a18 fix: lattice regularizers accept tuple lattice_sizes with units > 1", "5d00b90 fix: finalize_constraints assigns the projected weights instead of adding the difference", "be614fb fix: weighted quantile keypoints always start and end at the extreme values (zero-weight plateaus shifted them)", "f5ca544 fix: lattice projections accept tuple lattice_sizes / monotonicities / unimodalities with units > 1 (TypeError at the first constraint call)", "c6f03d2 fix: CategoricalCalibration.call builds the one-hot encoding in the layer dtype (float64 layers raised InvalidArgumentError)", "575725d fix: CDF rejects num_keypoints < 1 and units < 1 (zero keypoints were accepted and produced NaN outputs)", "c9271b9 fix: unknown custom regularizer given as a tuple raises ValueError (the error message formatting raised TypeError)", "7780660 fix: LatticeConstraints stores dominances / joint monotonicities as tuples (lists, e.g. after a JSON round trip, raised TypeError: unhashable at the first projection)", "4c13b7a fix: TorsionRegularizer verifies its per-dimension amounts like LaplacianRegularizer (short lists raised IndexError when called)", "052d456 fix: simplex interpolation accepts tuple lattice_sizes (TypeError at the first call)", "b89ac95 fix: linear verify_hyperparameters checks input_min / input_max lengths and requires monotonicities for dominance constraints (AssertionError / IndexError / late InvalidArgumentError)", "7189cd2 fix: range dominance requires input_min < input_max on its dimensions (a zero input range produced NaN weights)", "029a324 fix: CDF layer is registered in get_custom_objects (saved models containing a CDF layer could not be reloaded)", "a22154b fix: PWLCalibration rejects is_cyclic with "equal_slopes" and clamping of a non monotonic calibrator at construction (TypeError at build / ValueError only at the first projection)", "07828c0 fix: PWLCalibrationConstraints accepts bound constraint types as enum values (after a JSON round trip clamping was silently dropped)", "4d4b844 fix: cdf_fn rejects location_parameters without keypoints (zero keypoints produced NaN outputs)", "ff5f96e fix: pwl_calibration_fn rejects keypoint_input_min == keypoint_input_max (zero input range produced NaN)", "ab7779b fix: pwl_calibration_fn accepts the documented (batch, 1, size) keypoint_output_parameters with units > 1 (broadcast over units was rejected)", "f70b866 fix: categorical ordering pairs given as a tuple reach the calibrator (they passed verify_config but the calibrator was built unconstrained while the lattice axis was marked monotone)", "defc941 fix: RTL premade models file every monotone feature under "increasing" using the same rule as the other builders (case-insensitive spellings such as "Increasing" were filed as unconstrained)", "35f6090 fix: PWLCalibration only rejects clamping of a non monotonic calibrator when the clamped bound is actually set (clamp flags without the bound were and stay ignored)", "e8dafc0 fix: verify_config rejects categorical monotonicity that is not a list or tuple of pairs (a set or a string passed validation but the calibrator was built unconstrained)", "6e08a8c fix: LatticeConstraints verifies its output bounds (output_min >= output_max was accepted and the bounds projection divided by zero)"],
+          "source_commits": fix_commits(),
           "add_only": True,
       },
       "engines": [{
